@@ -1,0 +1,32 @@
+package store
+
+import (
+	"fmt"
+	"os"
+)
+
+// writeFileAtomic replaces the file at path with data.
+// The data is written to tmpPath, which is then renamed over path,
+// so a process which is killed or fails half-way leaves the old content in place
+// instead of a truncated or half-written file.
+// tmpPath must be on the same file system as path, and must not be inside a directory whose files are listed (refs/heads).
+func writeFileAtomic(tmpPath, path string, data []byte) error {
+	f, err := os.Create(tmpPath)
+	if err != nil {
+		return fmt.Errorf("fail to create %s: %w", tmpPath, err)
+	}
+	if _, err := f.Write(data); err != nil {
+		f.Close()
+		os.Remove(tmpPath)
+		return fmt.Errorf("fail to write %s: %w", tmpPath, err)
+	}
+	if err := f.Close(); err != nil {
+		os.Remove(tmpPath)
+		return fmt.Errorf("fail to close %s: %w", tmpPath, err)
+	}
+	if err := os.Rename(tmpPath, path); err != nil {
+		os.Remove(tmpPath)
+		return fmt.Errorf("fail to rename %s to %s: %w", tmpPath, path, err)
+	}
+	return nil
+}
